@@ -4,6 +4,8 @@ import (
 	"go/constant"
 	"go/token"
 	"go/types"
+	"sort"
+	"strings"
 
 	"golang.org/x/tools/go/ssa"
 )
@@ -77,4 +79,570 @@ func ruleEmptyRef(c *Ctx, rule string) {
 	c.CallSites(n)
 	c.Floor(rule, 2)
 	_ = types.Typ
+}
+
+// ruleCommitHook: binding a transaction to a mutate context registers the context's commit handler with that
+// transaction, unconditionally: commit actions may be queued at any time — before the context has a transaction
+// (NewMutateContext(...).AddCommitAction(f) and then db.Update(ctx, ...)) or after — and run once when the
+// transaction the context is bound to commits.  A registration made only when an action is queued misses the
+// actions queued before the transaction existed.
+func ruleCommitHook(c *Ctx, rule string) {
+	p := c.P
+	onCommit := p.ExtMethod(bboltPath, "Tx", "OnCommit")
+	n := 0
+	for _, fn := range c.prodFuncs("boltz") {
+		if fn.Name() != "setTx" || fn.Signature.Recv() == nil || len(fn.Params) != 2 {
+			continue
+		}
+		// the context that keeps the transaction itself (wrappers hand it on to this one)
+		tx := fn.Params[1]
+		keeps := false
+		for _, b := range fn.Blocks {
+			for _, in := range b.Instrs {
+				if st, ok := in.(*ssa.Store); ok && st.Val == ssa.Value(tx) {
+					if f, base := fieldOfAddr(st.Addr); f != nil && base == ssa.Value(fn.Params[0]) {
+						keeps = true
+					}
+				}
+			}
+		}
+		if !keeps {
+			continue
+		}
+		n++
+		name := FnName(fn)
+		c.Analysed(name)
+		fi := factsOf(fn)
+		isHook := func(in ssa.Instruction) bool {
+			call, ok := in.(ssa.CallInstruction)
+			if !ok || !isCallTo(call, onCommit) || len(call.Common().Args) < 1 {
+				return false
+			}
+			recv := call.Common().Args[0]
+			if recv == ssa.Value(tx) {
+				return true
+			}
+			// the field the transaction was just stored in
+			f, base := loadedField(recv)
+			return f != nil && base == ssa.Value(fn.Params[0]) && types.Identical(f.Type(), tx.Type())
+		}
+		ok := noPathAvoiding(fn, isHook, func(from, to *ssa.BasicBlock) bool {
+			for f := range fi.edgeFacts(from, to) {
+				if f.Kind == "nonnil" && !f.Pol && (f.V == ssa.Value(tx) || func() bool {
+					ff, base := loadedField(f.V)
+					return ff != nil && base == ssa.Value(fn.Params[0]) && types.Identical(ff.Type(), tx.Type())
+				}()) {
+					return true
+				}
+			}
+			return false
+		})
+		c.Check(ok, rule, name, p.Pos(fn.Pos()), "every path that binds a transaction (tx != nil) registers the commit handler with it", "a transaction can be bound to the context without the commit handler being registered with it (registration left to a later moment or made conditional): commit actions queued before the transaction began never run")
+	}
+	c.CallSites(n)
+	c.Floor(rule, 1)
+}
+
+// ruleTerminalNil: the token accessors of the generated parse-tree contexts (c.NUMBER(), c.STRING(i), ...)
+// return nil when the token is not there — which is the case exactly for the malformed input the error paths
+// deal with (the parser's recovery still produces the context).  Calling a method on such a result needs a nil
+// test of it first.
+func ruleTerminalNil(c *Ctx, rule string) {
+	p := c.P
+	zq := p.pkg("zitiql")
+	isTerminalAccessor := func(call *ssa.Call) bool {
+		cal, _ := calleeOf(call.Common())
+		if cal == nil || cal.Pkg() == nil || zq == nil || cal.Pkg() != zq.Types {
+			return false
+		}
+		sig, _ := cal.Type().(*types.Signature)
+		if sig == nil || sig.Recv() == nil || sig.Results().Len() != 1 {
+			return false
+		}
+		nm := namedOf(sig.Results().At(0).Type())
+		return nm != nil && nm.Obj().Name() == "TerminalNode" && p.isGenerated(cal.Pos())
+	}
+	n, bad := 0, 0
+	for _, fn := range c.prodFuncs("ast", "zitiql") {
+		var fi *FactInfo
+		for _, call := range callsIn(fn) {
+			cc := call.Common()
+			if !cc.IsInvoke() {
+				continue
+			}
+			src, ok := cc.Value.(*ssa.Call)
+			if !ok || !isTerminalAccessor(src) {
+				continue
+			}
+			n++
+			if fi == nil {
+				fi = factsOf(fn)
+				c.Analysed(FnName(fn))
+			}
+			construct := FnName(fn) + ": " + cc.Method.Name() + " on " + describeInstr(src)
+			if fi.Holds(call.Block(), Fact{"nonnil", src, true}) {
+				c.OK(rule, construct, p.Pos(call.Pos()), "the token is tested for nil first")
+				continue
+			}
+			bad++
+			c.Bad(rule, construct, p.Pos(call.Pos()), "a method is called on the result of a parse-tree token accessor without a nil test: for malformed input the token is missing, the accessor returns nil and parsing panics instead of reporting the error")
+		}
+	}
+	if bad == 0 {
+		c.OK(rule, "token accessors", "-", "no method is called on an untested token accessor result")
+	}
+	c.CallSites(n)
+}
+
+// rulePutFresh: bbolt keeps the value slice handed to Bucket.Put by reference until the transaction commits
+// (the page is written at commit time), so the slice must not be changed or reused before then.  A value
+// that comes out of a sync.Pool (and goes back into it when the function returns) or that is a window onto a
+// scratch array kept in a long-lived object is overwritten by the next user while the first write is still
+// pending: two writes in one transaction end up with the last one's bytes.
+func rulePutFresh(c *Ctx, rule string) {
+	p := c.P
+	put := p.ExtMethod(bboltPath, "Bucket", "Put")
+	n, bad := 0, 0
+	var origin func(v ssa.Value, fn *ssa.Function, depth int, seen map[ssa.Value]bool) string
+	origin = func(v ssa.Value, fn *ssa.Function, depth int, seen map[ssa.Value]bool) string {
+		if v == nil || depth > 8 || seen[v] {
+			return ""
+		}
+		seen[v] = true
+		switch x := v.(type) {
+		case *ssa.Slice:
+			return origin(x.X, fn, depth+1, seen)
+		case *ssa.Phi:
+			for _, e := range x.Edges {
+				if why := origin(e, fn, depth+1, seen); why != "" {
+					return why
+				}
+			}
+		case *ssa.TypeAssert:
+			return origin(x.X, fn, depth+1, seen)
+		case *ssa.Extract:
+			return origin(x.Tuple, fn, depth+1, seen)
+		case *ssa.ChangeType:
+			return origin(x.X, fn, depth+1, seen)
+		case *ssa.MakeInterface:
+			return origin(x.X, fn, depth+1, seen)
+		case *ssa.UnOp:
+			if x.Op != token.MUL {
+				return ""
+			}
+			// *p where p came out of a pool; or a local cell holding such a value
+			if al, isAl := x.X.(*ssa.Alloc); isAl && al.Referrers() != nil {
+				for _, r := range *al.Referrers() {
+					if st, isSt := r.(*ssa.Store); isSt && st.Addr == ssa.Value(al) {
+						if why := origin(st.Val, fn, depth+1, seen); why != "" {
+							return why
+						}
+					}
+				}
+				return ""
+			}
+			return origin(x.X, fn, depth+1, seen)
+		case *ssa.FieldAddr:
+			// a window onto an array kept in an object that outlives the call
+			if _, isArr := derefType(x.Type()).Underlying().(*types.Array); isArr {
+				if _, local := x.X.(*ssa.Alloc); !local {
+					f, _ := fieldOfAddr(x)
+					name := "a field"
+					if f != nil {
+						name = "field " + f.Name()
+					}
+					return "a scratch array kept in " + name + " of a long-lived object"
+				}
+			}
+		case *ssa.Call:
+			cal, _ := calleeOf(x.Common())
+			if cal != nil && cal.Pkg() != nil && cal.Pkg().Path() == "sync" && cal.Name() == "Get" {
+				return "a buffer taken from a sync.Pool"
+			}
+			// a helper of the module handing back such a buffer
+			if sc := x.Call.StaticCallee(); sc != nil && sc.Blocks != nil && inModule(sc) && depth < 4 {
+				for _, r := range returnsOf(sc) {
+					for _, res := range r.Results {
+						if _, isSlice := res.Type().Underlying().(*types.Slice); !isSlice {
+							if _, isPtr := res.Type().Underlying().(*types.Pointer); !isPtr {
+								continue
+							}
+						}
+						if why := origin(res, sc, depth+1, seen); why != "" {
+							return why
+						}
+					}
+				}
+			}
+		}
+		return ""
+	}
+	for _, fn := range c.prodFuncs("boltz") {
+		for _, call := range callsIn(fn) {
+			if !isCallTo(call, put) || len(call.Common().Args) != 3 {
+				continue
+			}
+			n++
+			if why := origin(call.Common().Args[2], fn, 0, map[ssa.Value]bool{}); why != "" {
+				bad++
+				c.Analysed(FnName(fn))
+				c.Bad(rule, FnName(fn)+": "+describeInstr(call), p.Pos(call.Pos()), "the value written is "+why+": bbolt keeps the slice until commit, so the next use of the buffer changes what this write stores")
+			}
+		}
+	}
+	if bad == 0 {
+		c.OK(rule, "values handed to bbolt Put", "-", "none of them is a pooled buffer or a window onto a long-lived scratch array")
+	}
+	c.CallSites(n)
+}
+
+// ruleSortWhole: the row comparator is built from the query's whole sort list.  Every field of the list can
+// decide the order (an explicit `id desc` after other fields decides ties the other way round than the implicit
+// ascending tie-break does); a list that is cut at a position found in the data before it reaches the comparator
+// loses fields.  The argument of newRowComparator is followed back — through parameters, fields of the scanner
+// and helpers — to query.GetSortFields(); a slice expression with a computed upper bound on the way is reported.
+// (A cap at a constant — SortMax — is not a cut in this sense.)
+func ruleSortWhole(c *Ctx, rule string, pkgs ...string) {
+	p := c.P
+	cg := p.CallGraph()
+	var origin func(v ssa.Value, fn *ssa.Function, depth int, seen map[ssa.Value]bool) string
+	origin = func(v ssa.Value, fn *ssa.Function, depth int, seen map[ssa.Value]bool) string {
+		if v == nil || depth > 8 || seen[v] {
+			return ""
+		}
+		seen[v] = true
+		switch x := v.(type) {
+		case *ssa.Slice:
+			if x.High != nil {
+				if _, isConst := x.High.(*ssa.Const); !isConst {
+					return "cut at a computed position at " + p.Pos(x.Pos())
+				}
+			}
+			if x.Low != nil {
+				if k, isConst := x.Low.(*ssa.Const); !isConst || (k.Value != nil && constant.Sign(k.Value) != 0) {
+					return "its leading fields are dropped at " + p.Pos(x.Pos())
+				}
+			}
+			return origin(x.X, fn, depth+1, seen)
+		case *ssa.Phi:
+			for _, e := range x.Edges {
+				if why := origin(e, fn, depth+1, seen); why != "" {
+					return why
+				}
+			}
+		case *ssa.ChangeType:
+			return origin(x.X, fn, depth+1, seen)
+		case *ssa.Extract:
+			return origin(x.Tuple, fn, depth+1, seen)
+		case *ssa.UnOp:
+			if x.Op != token.MUL {
+				return ""
+			}
+			if f, _ := fieldOfAddr(x.X); f != nil {
+				// a field: everything that is ever stored there
+				for _, w := range c.prodFuncs(pkgs...) {
+					for _, b := range w.Blocks {
+						for _, in := range b.Instrs {
+							st, isSt := in.(*ssa.Store)
+							if !isSt {
+								continue
+							}
+							if wf, _ := fieldOfAddr(st.Addr); sameVar(wf, f) {
+								if why := origin(st.Val, w, depth+1, seen); why != "" {
+									return why
+								}
+							}
+						}
+					}
+				}
+				return ""
+			}
+			if al, isAl := x.X.(*ssa.Alloc); isAl && al.Referrers() != nil {
+				for _, r := range *al.Referrers() {
+					if st, isSt := r.(*ssa.Store); isSt && st.Addr == ssa.Value(al) {
+						if why := origin(st.Val, fn, depth+1, seen); why != "" {
+							return why
+						}
+					}
+				}
+			}
+		case *ssa.Parameter:
+			pf := x.Parent()
+			idx := -1
+			for i, prm := range pf.Params {
+				if prm == x {
+					idx = i
+				}
+			}
+			for _, caller := range cg.callers[pf] {
+				for _, call := range callsIn(caller) {
+					if sc := call.Common().StaticCallee(); sc != pf {
+						continue
+					}
+					if idx >= 0 && idx < len(call.Common().Args) {
+						if why := origin(call.Common().Args[idx], caller, depth+1, seen); why != "" {
+							return why
+						}
+					}
+				}
+			}
+		case *ssa.Call:
+			if x.Call.IsInvoke() {
+				return "" // query.GetSortFields() and the like: the list as the query has it
+			}
+			if sc := x.Call.StaticCallee(); sc != nil && sc.Blocks != nil && inModule(sc) && depth < 5 {
+				for _, r := range returnsOf(sc) {
+					for _, res := range r.Results {
+						if _, isSlice := res.Type().Underlying().(*types.Slice); !isSlice {
+							continue
+						}
+						if why := origin(res, sc, depth+1, seen); why != "" {
+							return why
+						}
+					}
+				}
+			}
+		}
+		return ""
+	}
+	n := 0
+	for _, fn := range c.prodFuncs(pkgs...) {
+		for _, call := range callsIn(fn) {
+			cal, _ := calleeOf(call.Common())
+			if cal == nil || cal.Name() != "newRowComparator" {
+				continue
+			}
+			args := call.Common().Args
+			if len(args) == 0 {
+				continue
+			}
+			n++
+			c.Analysed(FnName(fn))
+			why := origin(args[len(args)-1], fn, 0, map[ssa.Value]bool{})
+			c.Check(why == "", rule, FnName(fn)+": "+describeInstr(call), p.Pos(call.Pos()), "the comparator is built from the sort list as the query has it", "the sort list handed to the comparator is "+why+": fields after that position no longer decide the order (an explicit `id desc` behind other fields is lost to the implicit ascending tie-break)")
+		}
+	}
+	c.CallSites(n)
+	c.Floor(rule, 1)
+}
+
+// ruleCacheKey: an object kept in a long-lived cache (a sync.Map held by a store) is handed to every later
+// caller that asks with the same key, so everything the object was built from has to be part of the key.  An
+// input of the building function (a parameter, or what an interface method of a parameter answered: the sort
+// direction, say) that flows into the cached object but not into the key makes the second caller get an object
+// built for the first one's input.
+func ruleCacheKey(c *Ctx, rule string, pkgs ...string) {
+	p := c.P
+	n, bad := 0, 0
+	isInputScalar := func(t types.Type) bool {
+		b, ok := t.Underlying().(*types.Basic)
+		return ok && b.Info()&(types.IsBoolean|types.IsString|types.IsNumeric) != 0
+	}
+	for _, fn := range c.prodFuncs(pkgs...) {
+		for _, call := range callsIn(fn) {
+			cal, _ := calleeOf(call.Common())
+			if cal == nil || cal.Pkg() == nil || cal.Pkg().Path() != "sync" || (cal.Name() != "Store" && cal.Name() != "LoadOrStore") || len(call.Common().Args) != 3 {
+				continue
+			}
+			if nm := namedOf(call.Common().Args[0].Type()); nm == nil || nm.Obj().Name() != "Map" {
+				continue
+			}
+			n++
+			c.Analysed(FnName(fn))
+			// backward slice to the inputs
+			leaves := func(root ssa.Value) map[ssa.Value]bool {
+				out := map[ssa.Value]bool{}
+				seen := map[ssa.Value]bool{}
+				var walk func(v ssa.Value, depth int)
+				walk = func(v ssa.Value, depth int) {
+					if v == nil || seen[v] || depth > 12 {
+						return
+					}
+					seen[v] = true
+					switch x := v.(type) {
+					case *ssa.Parameter:
+						if len(fn.Params) > 0 && x != fn.Params[0] && isInputScalar(x.Type()) {
+							out[x] = true
+						}
+					case *ssa.Call:
+						if x.Call.IsInvoke() {
+							if isInputScalar(x.Type()) {
+								out[x] = true
+							}
+							return
+						}
+						for _, a := range x.Call.Args {
+							walk(a, depth+1)
+						}
+					case *ssa.Alloc:
+						if x.Referrers() == nil {
+							return
+						}
+						for _, r := range *x.Referrers() {
+							switch y := r.(type) {
+							case *ssa.Store:
+								if y.Addr == ssa.Value(x) {
+									walk(y.Val, depth+1)
+								}
+							case *ssa.FieldAddr:
+								if y.Referrers() == nil {
+									continue
+								}
+								for _, fr := range *y.Referrers() {
+									if st, isSt := fr.(*ssa.Store); isSt && st.Addr == ssa.Value(y) {
+										walk(st.Val, depth+1)
+									}
+								}
+							case *ssa.IndexAddr:
+								if y.Referrers() == nil {
+									continue
+								}
+								for _, fr := range *y.Referrers() {
+									if st, isSt := fr.(*ssa.Store); isSt && st.Addr == ssa.Value(y) {
+										walk(st.Val, depth+1)
+									}
+								}
+							}
+						}
+					default:
+						if in, ok := v.(ssa.Instruction); ok {
+							var rands []*ssa.Value
+							for _, op := range in.Operands(rands) {
+								if op != nil && *op != nil {
+									walk(*op, depth+1)
+								}
+							}
+						}
+					}
+				}
+				walk(root, 0)
+				return out
+			}
+			keyIn := leaves(call.Common().Args[1])
+			valIn := leaves(call.Common().Args[2])
+			var missing []string
+			for v := range valIn {
+				if keyIn[v] {
+					continue
+				}
+				// the same question asked twice of the same object counts as the same input
+				same := false
+				if vc, isCall := v.(*ssa.Call); isCall {
+					for k := range keyIn {
+						if kc, isK := k.(*ssa.Call); isK && kc.Call.Method == vc.Call.Method && kc.Call.Value == vc.Call.Value {
+							same = true
+						}
+					}
+				}
+				if !same {
+					missing = append(missing, describeValue(v))
+				}
+			}
+			sort.Strings(missing)
+			if len(missing) > 0 {
+				bad++
+				c.Bad(rule, FnName(fn)+": "+describeInstr(call), p.Pos(call.Pos()), "the cached object is built from "+strings.Join(missing, ", ")+", which is not part of the key it is cached under: a later caller with the same key and another value of it is handed this object")
+			} else {
+				c.OK(rule, FnName(fn)+": "+describeInstr(call), p.Pos(call.Pos()), "every input the cached object is built from is part of its key")
+			}
+		}
+	}
+	if n == 0 {
+		c.OK(rule, "long-lived caches", "-", "no object is cached in a sync.Map by the stores")
+	}
+	_ = bad
+	c.CallSites(n)
+}
+
+// ruleMissingPathNil: looking a bucket path up (Path, TypedBucket.GetPath) answers nil as soon as one element
+// of the path does not exist.  Callers take a non-nil answer for the bucket AT the path (an index's bucket, an
+// entity's field bucket) and read or write there; an answer that is the deepest EXISTING ancestor instead makes
+// them work in the wrong bucket.  On the edge where a bucket lookup came back nil, every return that can be
+// reached hands back nil (the literal, or that very lookup result).
+func ruleMissingPathNil(c *Ctx, rule string) {
+	p := c.P
+	fns := []*ssa.Function{p.SSAFunc(p.Func("boltz", "Path")), p.SSAFunc(p.Method("boltz", "TypedBucket", "GetPath"))}
+	isLookup := func(v ssa.Value) bool {
+		call, ok := v.(*ssa.Call)
+		if !ok {
+			return false
+		}
+		if _, isPtr := call.Type().Underlying().(*types.Pointer); !isPtr {
+			return false
+		}
+		cal, _ := calleeOf(call.Common())
+		if cal == nil {
+			return false
+		}
+		switch cal.Name() {
+		case "Bucket", "GetBucket", "GetBucketByKey":
+			return true
+		}
+		// a helper of the module that does the step (returns a bucket pointer, creates nothing on this path)
+		if sc := call.Call.StaticCallee(); sc != nil && inModule(sc) && namedOf(call.Type()) == p.Named("boltz", "TypedBucket") {
+			return true
+		}
+		return false
+	}
+	n := 0
+	for _, fn := range fns {
+		name := FnName(fn)
+		c.Analysed(name)
+		fi := factsOf(fn)
+		for _, b := range fn.Blocks {
+			for _, to := range b.Succs {
+				var missing ssa.Value
+				for f := range fi.edgeFacts(b, to) {
+					if f.Kind == "nonnil" && !f.Pol && isLookup(f.V) {
+						missing = f.V
+					}
+				}
+				if missing == nil {
+					continue
+				}
+				n++
+				// every return reachable from here
+				seen := map[*ssa.BasicBlock]bool{}
+				var bad *ssa.Return
+				var walk func(x *ssa.BasicBlock)
+				walk = func(x *ssa.BasicBlock) {
+					if seen[x] || bad != nil {
+						return
+					}
+					seen[x] = true
+					if r, isRet := x.Instrs[len(x.Instrs)-1].(*ssa.Return); isRet && len(r.Results) == 1 {
+						res := r.Results[0]
+						if !isNilConst(res) && res != missing {
+							// the phi that merges exactly this nil in on the way
+							okPhi := false
+							if phi, isPhi := res.(*ssa.Phi); isPhi {
+								okPhi = true
+								for _, e := range phi.Edges {
+									if !isNilConst(e) && e != missing {
+										okPhi = false
+									}
+								}
+							}
+							if !okPhi {
+								bad = r
+							}
+						}
+						return
+					}
+					for _, s := range x.Succs {
+						walk(s)
+					}
+				}
+				walk(to)
+				c.Check(bad == nil, rule, name+": missing element at "+p.Pos(missing.Pos()), p.Pos(missing.Pos()), "where a bucket of the path does not exist the lookup answers nil", func() string {
+					if bad == nil {
+						return ""
+					}
+					return "after a bucket of the path was found missing the function can still return a bucket (at " + p.Pos(bad.Pos()) + "): the caller is handed the deepest existing ancestor as if it were the bucket at the path"
+				}())
+			}
+		}
+	}
+	c.CallSites(n)
+	c.Floor(rule, 2)
 }
